@@ -1601,7 +1601,9 @@ class RequestHandler:
                 version, token, timestamp = self._decode_xsrf_token(cookie)
             else:
                 version, token, timestamp = None, None, None
-            if token is None:
+            if not token:
+                # No usable cookie (absent, undecodable, or decoding to an
+                # empty secret, which check_xsrf_cookie can never accept).
                 version = None
                 token = os.urandom(16)
                 timestamp = time.time()
